@@ -1,6 +1,8 @@
 package doubles
 
 import (
+	"fmt"
+	"os"
 	"context"
 	"errors"
 	"reflect"
@@ -105,6 +107,9 @@ func (n *Network) request(ctx context.Context, from, to []byte, m proto.Message)
 	}
 	if d.FailAfter {
 		return p2p.P2PMessage{}, errors.New("injected lost acknowledgement")
+	}
+	if os.Getenv("C04_DEBUG") != "" {
+		fmt.Fprintf(os.Stderr, "%s delivered %T %s -> %s attempt %d\n", time.Now().Format("05.000"), m, from, to, attempt)
 	}
 	return p2p.P2PMessage{}, nil
 }
